@@ -21,6 +21,7 @@ import (
 type Case struct {
 	G      *cfgm.G
 	Named  bool // list parameters declared with named slice types (assignable, not identical)
+	Layout int  // where _onBounds sits among the parser type's methods (pgo.Opts.BoundsLayout)
 	Inputs [][]int
 	Lox    string `json:",omitempty"`
 	Detail string `json:",omitempty"`
@@ -49,7 +50,7 @@ func Gen(rt *rapid.T, run *ev.Run, nInputs int, nullableHeavy bool) *Case {
 			continue
 		}
 		seen := map[string]bool{}
-		c := &Case{G: g, Named: rapid.Bool().Draw(rt, "named-slice-params")}
+		c := &Case{G: g, Named: rapid.Bool().Draw(rt, "named-slice-params"), Layout: rapid.IntRange(0, 2).Draw(rt, "onbounds-layout")}
 		for k := 0; k < nInputs; k++ {
 			w := cfggen.Sentence(rt, p, rapid.IntRange(2, 8).Draw(rt, "b"))
 			if len(w) > 40 {
@@ -99,7 +100,7 @@ func Eval(run *ev.Run, cases []*Case, m Mode, count bool, prop string) ([]Verdic
 	mk := func(onb bool) ([]*pbatch.Case, []*pbatch.Out, error) {
 		pc := make([]*pbatch.Case, len(cases))
 		for i, c := range cases {
-			pc[i] = &pbatch.Case{G: c.G, Inputs: c.Inputs, OnBounds: onb, NamedSlices: c.Named}
+			pc[i] = &pbatch.Case{G: c.G, Inputs: c.Inputs, OnBounds: onb, NamedSlices: c.Named, BoundsLayout: c.Layout}
 		}
 		outs, err := pbatch.Run(pc, true)
 		return pc, outs, err
@@ -257,10 +258,10 @@ func Shrink(run *ev.Run, c *Case, m Mode, prop string) *Case {
 	cands := func(c *Case) []*Case {
 		var out []*Case
 		for _, g := range cfggen.Reductions(c.G) {
-			out = append(out, &Case{G: g, Named: c.Named, Inputs: c.Inputs})
+			out = append(out, &Case{G: g, Named: c.Named, Layout: c.Layout, Inputs: c.Inputs})
 		}
 		for _, w := range cfggen.InputReductions(c.Inputs[0]) {
-			out = append(out, &Case{G: c.G, Named: c.Named, Inputs: [][]int{w}})
+			out = append(out, &Case{G: c.G, Named: c.Named, Layout: c.Layout, Inputs: [][]int{w}})
 		}
 		return out
 	}
@@ -365,7 +366,7 @@ func RunCheck(run *ev.Run, prop string, m Mode, nQuick, nThorough int, nullableH
 			if vs[i].Bad == nil {
 				continue
 			}
-			fc := &Case{G: c.G, Named: c.Named, Inputs: [][]int{vs[i].Bad}, Lox: c.Lox}
+			fc := &Case{G: c.G, Named: c.Named, Layout: c.Layout, Inputs: [][]int{vs[i].Bad}, Lox: c.Lox}
 			detail := vs[i].Detail
 			if len(vs[i].Bad) > 0 || true {
 				fc = Shrink(run, fc, m, prop)
